@@ -33,8 +33,8 @@ namespace {
 // Defects of the tree this harness was written against that would otherwise cost a crashed or hung child in a large share
 // of the scenarios, or blur every verdict. Whether each is present in the library under test is *probed* once per process
 // (probeDefects(), forked children); while present, the generator keeps the trigger out of the routine cases (counted as
-// excluded:…) and a sample of cases still lets it through, matched by known.d/C07.json. When a defect is fixed the probe
-// says so and the exclusion disappears by itself; the entry in known.d/C07.json then has to go.
+// excluded:…) and a sample of cases still lets it through, matched by known_findings.json. When a defect is fixed the probe
+// says so and the exclusion disappears by itself; the entry in known_findings.json then has to go.
 struct Defects
 {
     bool fetchSkipsUnitChildOfLocalUnitChild = true; // resolveImports(): u imported, u = {v}, v = {w}, w imported: w never fetched
@@ -370,7 +370,7 @@ struct Eval
     int maxDepth = 0;
     bool usesU = false, usesC = false, diamond = false;
     bool siblingUnitImports = false; // some reached local units have two or more children that need an import
-    bool nestedUnitsChainWithLocalChild = false; // … -(v|n|k)-> imported units = {imported units = {local units}}: see known.d (flattening regression)
+    bool nestedUnitsChainWithLocalChild = false; // … -(v|n|k)-> imported units = {imported units = {local units}}: see known_findings.json (flattening regression)
     std::map<int, int> fileVisits;
     long steps = 0;
 
